@@ -8,6 +8,7 @@ pub mod c08;
 pub mod c09;
 pub mod chunky_impls;
 pub mod interval;
+pub mod longrun;
 pub mod c10;
 pub mod c11;
 pub mod c14;
